@@ -64,6 +64,44 @@ BODIES = {
 ENDPOINTS = ['/authenticate', '/refresh', '/validate', '/signout', '/invalidate', '/join']
 
 
+def judge(out, after, got_reqs, r):
+    """compares one observed operation with the model's (outcome, token afterwards, requests)"""
+    mout, mtok, mreqs = r
+    what = None
+    exp_after = [None if not x else ''.join(map(chr, x[0])) for x in mtok]
+    if mout[0] == 4:
+        return None, exp_after
+    if out[:len(mout)] != mout or len(out) > len(mout):
+        what = 'outcome %s; expected %s' % (describe(out), describe(mout))
+    elif after != exp_after:
+        what = 'stored credentials afterwards %s; expected %s' % (after, exp_after)
+    else:
+        # requests: endpoint, content type, payload
+        exp = []
+        for sess, ep, pl in mreqs:
+            d = {}
+            for k, v in pl:
+                key = ['agent', 'username', 'password', 'clientToken', 'accessToken', 'selectedProfile', 'serverId'][k]
+                if v[0] == 0:
+                    d[key] = None if not v[1] else ''.join(map(chr, v[1][0]))
+                elif v[0] == 1:
+                    d[key] = '<fresh>'
+                elif v[0] == 2:
+                    d[key] = {'name': 'Minecraft', 'version': 1}
+                else:
+                    d[key] = {'id': ''.join(map(chr, v[1][0])) if v[1] else None, 'name': ''.join(map(chr, v[2][0])) if v[2] else None}
+            exp.append((('/session/minecraft' if sess else '') + ENDPOINTS[ep], d))
+        if len(got_reqs) != len(exp):
+            what = '%d requests were sent; expected %d' % (len(got_reqs), len(exp))
+        else:
+            for (path, ctype, body), (epath, ed) in zip(got_reqs, exp):
+                if isinstance(body, dict) and ed.get('clientToken') == '<fresh>' and isinstance(body.get('clientToken'), str) and len(body['clientToken']) == 32:
+                    body = dict(body, clientToken='<fresh>')
+                if path != epath or body != ed or ctype != 'application/json':
+                    what = 'request %s %s (%s); documented: %s %s' % (path, body, ctype, epath, ed)
+    return what, exp_after
+
+
 def run(chk):
     common.standard_proof(chk, 'Properties/C19.v')
     from minecraft import authentication as A
@@ -136,74 +174,85 @@ def run(chk):
             chk.tally('op:%s' % op[0])
             chk.tally('status:%d' % status)
             chk.tally('body:%s' % bk)
-            what = None
-            exp_after = [None if not x else ''.join(map(chr, x[0])) for x in mtok]
+            what, exp_after = judge(out, after, got_reqs, r)
             if mout[0] == 4:
                 continue
-            if out[:len(mout)] != mout or len(out) > len(mout):
-                what = 'outcome %s; expected %s' % (describe(out), describe(mout))
-            elif after != exp_after:
-                what = 'stored credentials afterwards %s; expected %s' % (after, exp_after)
-            else:
-                # requests: endpoint, content type, payload
-                exp = []
-                for sess, ep, pl in mreqs:
-                    d = {}
-                    for k, v in pl:
-                        key = ['agent', 'username', 'password', 'clientToken', 'accessToken', 'selectedProfile', 'serverId'][k]
-                        if v[0] == 0:
-                            d[key] = None if not v[1] else ''.join(map(chr, v[1][0]))
-                        elif v[0] == 1:
-                            d[key] = '<fresh>'
-                        elif v[0] == 2:
-                            d[key] = {'name': 'Minecraft', 'version': 1}
-                        else:
-                            d[key] = {'id': ''.join(map(chr, v[1][0])) if v[1] else None, 'name': ''.join(map(chr, v[2][0])) if v[2] else None}
-                    exp.append((('/session/minecraft' if sess else '') + ENDPOINTS[ep], d))
-                if len(got_reqs) != len(exp):
-                    what = '%d requests were sent; expected %d' % (len(got_reqs), len(exp))
-                else:
-                    for (path, ctype, body), (epath, ed) in zip(got_reqs, exp):
-                        if isinstance(body, dict) and ed.get('clientToken') == '<fresh>' and isinstance(body.get('clientToken'), str) and len(body['clientToken']) == 32:
-                            body = dict(body, clientToken='<fresh>')
-                        if path != epath or body != ed or ctype != 'application/json':
-                            what = 'request %s %s (%s); documented: %s %s' % (path, body, ctype, epath, ed)
             if what:
                 chk.violation('op', 'op:%s:%d:%s:%s' % (op[0], status, bk, hash(repr(st)) % 10 ** 6), {'case': case, 'observed': {'outcome': out, 'state': after, 'requests': [(g[0], g[2]) for g in got_reqs]}, 'expected': {'outcome': mout, 'state': exp_after}},
                               '%s with state %s on a %d reply with %s body: %s' % (op[0], st, status, bk, what))
-        # operation sequences: errors in the middle leave no trace
-        for _ in range(60 if th else 15):
+        # operation sequences on ONE token object: every step is compared with the model started from the state the token
+        # was in before that step (outcome, stored credentials, every request with its payload); the replies differ from
+        # step to step (new access token, renamed / switched profile), and errors in the middle leave no trace
+        def perform(tok, op):
+            del stub.requests[:]
+            try:
+                if op[0] == 'authenticate':
+                    r = tok.authenticate(op[1], op[2], invalidate_previous=op[3])
+                elif op[0] == 'sign_out':
+                    r = A.AuthenticationToken.sign_out(op[1], op[2])
+                elif op[0] == 'join':
+                    r = tok.join(op[1])
+                else:
+                    r = getattr(tok, op[0])()
+                out = [0] if r is True else [1] if r is None else ['returned', repr(r)]
+            except YggdrasilError as e:
+                out = [2, [] if e.status_code is None else [e.status_code],
+                       [] if e.yggdrasil_error is None and e.yggdrasil_message is None else [[s_(e.yggdrasil_error), s_(e.yggdrasil_message), opt(e.yggdrasil_cause)]]]
+            except ValueError:
+                out = [3]
+            except Exception as e:
+                out = ['raised', exn_name(e)]
+            got = []
+            for path, ctype, body in stub.requests:
+                try:
+                    got.append((path, ctype, json.loads(body.decode('utf-8'))))
+                except Exception:
+                    got.append((path, ctype, 'unparseable'))
+            return out, got
+        seqs, sreqs = [], []
+        for n in range(400 if th else 80):
             tok = A.AuthenticationToken()
             seq = []
-            model_state = [None] * 5
-            ok = True
-            for k in range(rng.randrange(3, 8)):
-                op = rng.choice(ops)
-                status = rng.choice(statuses)
-                bk = 'result' if (status == 200 and op[0] in ('authenticate', 'refresh')) else rng.choice(sorted(BODIES))
-                mk, mbody = BODIES[bk]
-                payload = mk()
+            # most sequences start by authenticating, so that the later steps act on a live token
+            first = [('authenticate', 'alice', 'pw', False)] if n % 4 else []
+            steps = first + [rng.choice(ops) for _ in range(rng.randrange(3, 9))]
+            for k, op in enumerate(steps):
+                status = 200 if (k == 0 and first) else rng.choice([200, 200, 200, 204] + statuses)
+                if status == 200 and op[0] in ('authenticate', 'refresh'):
+                    bk = 'result'
+                    prof = rng.choice([('PID%d' % k, 'Name%d' % k), ('PID0', 'Renamed%d' % k), ('PID0', 'Name0')])
+                    payload = {'accessToken': 'ACC%d_%d' % (n, k), 'clientToken': 'CLI%d' % (k % 2), 'selectedProfile': {'id': prof[0], 'name': prof[1]}, 'availableProfiles': []}
+                    mbody = [0, s_(payload['accessToken']), s_(payload['clientToken']), s_(prof[0]), s_(prof[1])]
+                else:
+                    bk = rng.choice(sorted(BODIES)) if status != 200 else rng.choice(['empty', 'error'])
+                    mk, mbody = BODIES[bk]
+                    payload = mk()
                 stub.reply = (status, (json.dumps(payload) if not isinstance(payload, str) else payload).encode('utf-8'))
                 before = [tok.username, tok.access_token, tok.client_token, tok.profile.id_, tok.profile.name]
-                try:
-                    if op[0] == 'authenticate':
-                        tok.authenticate(op[1], op[2], invalidate_previous=op[3])
-                    elif op[0] == 'sign_out':
-                        A.AuthenticationToken.sign_out(op[1], op[2])
-                    elif op[0] == 'join':
-                        tok.join(op[1])
-                    else:
-                        getattr(tok, op[0])()
-                    raised = False
-                except Exception:
-                    raised = True
+                out, got = perform(tok, op)
                 after = [tok.username, tok.access_token, tok.client_token, tok.profile.id_, tok.profile.name]
-                seq.append((op[0], status, bk))
-                chk.count('sequence', [seq[:]], True)
-                if raised and after != before:
-                    chk.violation('sequence', 'seq:%s:%d' % (op[0], status), {'case': {'sequence': seq}, 'observed': {'before': before, 'after': after}},
-                                  'in the sequence %s the failing %s (status %d) altered the stored credentials' % (seq, op[0], status))
-                    break
+                seq.append([op[0], status, bk])
+                mop = {'authenticate': lambda: [0, s_(op[1]), s_(op[2]), op[3]], 'refresh': lambda: [1], 'validate': lambda: [2], 'invalidate': lambda: [3],
+                       'join': lambda: [4, s_(op[1])], 'sign_out': lambda: [5, s_(op[1]), s_(op[2])]}[op[0]]()
+                sreqs.append(('auth_perform', [[opt(x) for x in before], mop, status, [4] if status == 204 else mbody]))
+                seqs.append(([list(x) for x in seq], before, out, after, got, op, status))
+                chk.count('sequence', [seq[:], payload if isinstance(payload, dict) else bk], len(seq) > 1)
+                chk.tally('sequence:%s' % op[0])
+        stop_after = set()
+        for (seq, before, out, after, got, op, status), r in zip(seqs, run_model(sreqs)):
+            key = repr(seq[:-1])
+            if any(key.startswith(x) for x in stop_after):
+                continue
+            what, exp_after = judge(out, after, got, r)
+            if r[0][0] == 4:
+                continue
+            if what is None and out[0] in (2, 3, 'raised') and after != before:
+                what = 'the failing %s (status %d) altered the stored credentials: %s -> %s' % (op[0], status, before, after)
+            if what:
+                stop_after.add(repr(seq)[:-1])
+                chk.violation('sequence', 'seq:%s:%d:%d' % (op[0], status, len(seq)), {'case': {'sequence': seq, 'state_before_last_step': before},
+                                                                                       'observed': {'outcome': out, 'state': after, 'requests': [(g[0], g[2]) for g in got]}, 'expected': {'state': exp_after}},
+                              'in the sequence %s (token state before the last step %s): %s' % (seq, before, what))
     finally:
         A.AUTH_SERVER, A.SESSION_SERVER = saved
         stub.stop()
